@@ -8,8 +8,9 @@ from checks import prop, REPLAYERS
 L_INV = ["SessionsAreHandlers", "RegSubsetSess", "AdvMatchesReg", "RegistryIsOpenConns",
          "AllGoneAdvertisesNothing", "NotClosedBeforeExpiry"]
 L_PROPS = ["ClosedAtExpiry", "ShutdownReleasesAll"]
-COVER = {"ConnE1": {"c1", "c2"}, "ConnE2": {"c3"}, "MaxClock": 0, "DisableExpiry": False}
-WALK = {"ConnE1": {"c1", "c2", "c4", "c6"}, "ConnE2": {"c3", "c5", "c7"}, "MaxClock": 0, "DisableExpiry": False}
+COVER = {"ConnE1": {"c1", "c2"}, "ConnE2": {"c3"}, "ExpConn": {"c1", "c3"}, "MaxClock": 0, "DisableExpiry": False}
+WALK = {"ConnE1": {"c1", "c2", "c4", "c6"}, "ConnE2": {"c3", "c5", "c7"}, "ExpConn": {"c1", "c3", "c4", "c7"},
+        "MaxClock": 0, "DisableExpiry": False}
 
 
 def model(chk, label, c, timeout=2400):
@@ -22,7 +23,8 @@ def model(chk, label, c, timeout=2400):
 
 
 def sched_of(c, **kw):
-    return dict({"mode": "c16", "connE1": sorted(c["ConnE1"]), "connE2": sorted(c["ConnE2"])}, **kw)
+    return dict({"mode": "c16", "connE1": sorted(c["ConnE1"]), "connE2": sorted(c["ConnE2"]),
+                 "expConn": sorted(c["ExpConn"])}, **kw)
 
 
 @prop("C16")
@@ -42,10 +44,12 @@ def c16(chk):
     chk.assumptions = ["quiescence is awaited for at most 3 s", "expiry tolerance -150 ms / +700 ms",
                        "shedding is only triggered while every listener would reconnect"]
     if quick:
-        model(chk, "C16-model", {"ConnE1": {"c1", "c2"}, "ConnE2": set(), "MaxClock": 1, "DisableExpiry": False})
+        model(chk, "C16-model", {"ConnE1": {"c1", "c2"}, "ConnE2": set(), "ExpConn": set(), "MaxClock": 1,
+                                 "DisableExpiry": False})
     else:
-        model(chk, "C16-model", {"ConnE1": {"c1", "c2"}, "ConnE2": {"c3"}, "MaxClock": 2, "DisableExpiry": False})
-        model(chk, "C16-model-noexpiry", {"ConnE1": {"c1", "c2"}, "ConnE2": {"c3"}, "MaxClock": 1,
+        model(chk, "C16-model", {"ConnE1": {"c1", "c2"}, "ConnE2": {"c3"}, "ExpConn": set(), "MaxClock": 2,
+                                 "DisableExpiry": False})
+        model(chk, "C16-model-noexpiry", {"ConnE1": {"c1", "c2"}, "ConnE2": {"c3"}, "ExpConn": set(), "MaxClock": 1,
                                           "DisableExpiry": True})
     beh, info = G.gen_cover(chk, "C16-cover", COVER, module="Lifecycle", spec="MacroSpec", view="MacroView",
                             max_len=40)
